@@ -219,6 +219,41 @@ def mk_action_space(H, W):
     return h
 
 
+def mk_rejected_stateful(H, W):
+    """a rejected action changes NOTHING of a live environment either: same state object, same memoised observation, no draw"""
+    from .c04 import make_env as make_stateful
+
+    def h(sx):
+        reset_gv_debug(False)
+        counter = dict(obs_calls=0, obs_states=[], obs_tags=[], reset_calls=0, reset_rngs=[], reset_state=None)
+        env = make_stateful(H, W, False, counter)
+        mask = sx.choice('mask', [0b00111111, 0b00001111, 0b11000000, 0b01010101, 0b00000001, 0b11111110])
+        allowed = [a for i, a in enumerate(Action) if mask >> i & 1]
+        env.action_space = ActionSpace(allowed)
+        rng = SymRng(sx)
+        env._rng = rng
+        S, world = lazy_state(sx, H, W, SMALL[:2], held_sigma=[])
+        env._state = S
+        read_before = sx.choice('read_before', [True, False])
+        memo = env.observation if read_before else None
+        n0, c0 = rng.n, counter['obs_calls']
+        a = sx.choice('a', ACTIONS)
+        sx.assume(a not in allowed)
+        bad = sx.choice('kind', ['action', 'junk'])
+        try:
+            env.step(a if bad == 'action' else ('not-an-action', a.name))
+        except ValueError:
+            sx.cover('rejected-stateful')
+        else:
+            sx.fail('outside-action-accepted-by-step')
+        sx.check(env._state is S, 'rejected-step-keeps-the-state')
+        sx.check(env._observation is memo, 'rejected-step-keeps-the-memoised-observation')
+        sx.check(rng.n == n0 and counter['obs_calls'] == c0, 'rejected-step-draws-and-computes-nothing')
+        if read_before:
+            sx.check(env.observation is memo and rng.n == n0, 'observation-after-a-rejected-step-is-the-same-object')
+    return h
+
+
 # ---------------------------------------------------------------------------
 # membership predicates against the oracle, on possibly ill-formed inputs
 
@@ -344,6 +379,7 @@ def obligations(tier):
             obs.append(Obligation(f'debug-step-{obsname}-{H}x{W}', mk_debug_step(full, H, W, sg, obsname),
                                   dict(H=H, W=W, alphabet=[e[0] for e in sg], held=['none', 'Key(YELLOW)'], debug=True)))
     obs.append(Obligation('action-space-1x1', mk_action_space(1, 1), dict(subsets=256, world='1x1 over {Floor, Exit}, turn_agent dynamics')))
+    obs.append(Obligation('rejected-action-stateful-1x2', mk_rejected_stateful(1, 2), dict(subsets=6, interface='InnerEnv.step on a live environment')))
     for (H, W) in ([(1, 2), (2, 2), (2, 3)] if q else [(1, 2), (2, 2), (2, 3), (3, 2)]):
         obs.append(Obligation(f'state-contains-space2x2-cand{H}x{W}', mk_state_contains(2, 2, H, W), dict(space='2x2', candidate=f'{H}x{W}')))
     for (H, W) in ([(1, 3), (2, 1), (1, 1)] if q else [(1, 3), (2, 1), (1, 1), (1, 5)]):
